@@ -316,9 +316,11 @@ func C17Hier() {
 	var top []RecDecl
 	b := &zzDecl{name: "b", min: 1, max: 1}
 	switch zz.NondetChoice("targetKind", 3) {
-	case 0: // leaf target a, then b
-		top = []RecDecl{&zzDecl{name: "G", group: true, min: 0, max: zzUnbounded, kids: []RecDecl{
-			&zzDecl{name: "a", min: 1, max: 1, target: true}, b}}}
+	case 0: // leaf target a followed by a non-target b, both directly under the (fixed) root
+		// (a repeating non-target group around the target would be a new ancestor per block,
+		// which is outside the property: "under a fixed set of ancestors")
+		top = []RecDecl{&zzDecl{name: "a", min: 0, max: zzUnbounded, target: true, kids: []RecDecl{}}}
+		b = nil
 	case 1: // target record with a child record
 		top = []RecDecl{&zzDecl{name: "a", min: 0, max: zzUnbounded, target: true, kids: []RecDecl{b}}}
 	default: // target group
@@ -327,7 +329,12 @@ func C17Hier() {
 	}
 	var units []byte
 	for i := 0; i < N; i++ {
-		units = append(units, 'a', 'b')
+		units = append(units, 'a')
+		if b != nil {
+			units = append(units, 'b')
+		} else {
+			units = append(units, 'a') // keep the positions (texts) aligned with the filters: two units per block
+		}
 	}
 	// node texts are the unit positions: a = 0,2,4,…  b = 1,3,5,…
 	var filter *xpath.Expr
@@ -343,7 +350,7 @@ func C17Hier() {
 	r := NewHierarchyReader(top, rr, filter)
 	root := r.stack[0].recNode
 	first := -1
-	for i := 0; i < N+1; i++ {
+	for i := 0; i < 2*N+1; i++ {
 		n, err := r.Read()
 		if err != nil {
 			zz.Cover("terminal")
